@@ -3,6 +3,7 @@ import itertools
 import os
 
 from common import Check, coq_eval, coq_str, coq_bool, coq_opt, impl_run, impl_run_parallel
+from kserve import run_kserve
 import gen
 
 ALPHABET = [".", "/", "\\", "\x00", "%", "a", "?", "|"]
@@ -246,7 +247,7 @@ def k_chain(chk, tier):
 
 def run(tier):
     chk = Check("C01", tier)
-    chk.proofs(extra_files=["Corr/K01.v"])
+    chk.proofs(extra_files=["Corr/K01.v", "Props/C01Serve.v", "Corr/KServe.v"])
     found_concrete = False
     cov = chk.coverage
 
@@ -316,6 +317,19 @@ def run(tier):
     if kc_broken:
         k_broken = True
         k_detail["handler_choice"] = kc_detail
+
+    # ---------------- K (request line -> decision -> reply, end to end: Model/Serve.v) ----------------
+    ks_mism, ks_err, ks_det = run_kserve(chk, tier)
+    cov["kserve"] = {k: v for k, v in ks_det.items() if k != "handler_lists"} if isinstance(ks_det, dict) else ks_det
+    if isinstance(ks_det, dict):
+        for hl in (ks_det.get("handler_lists") or {}).values():
+            for hit in (hl.get("climber_reached_a_handler") or [])[:5]:
+                found_concrete = True
+                chk.violation(dict(hit, what="a climbing selector reached a handler (model-independent observation of the end-to-end run)"),
+                              tag="serve-climber-reached-handler")
+    if ks_mism or ks_err:
+        k_broken = True
+        k_detail["serve_end_to_end"] = {"mismatches": ks_mism, "error": ks_err}
 
     # ---------------- oracle search (end to end) ----------------
     names = ["a.txt", "dir1", "dir1/c.txt", "notes", "mail.mbox", "md", "script.sh", "b.html", "read me.txt",
